@@ -16,6 +16,7 @@ class Ctx(object):
         self.overlay = overlay
         self._program = None
         self._cg = None
+        self._effects = None
         self.results = []
         self.consulted = set()
 
@@ -30,6 +31,14 @@ class Ctx(object):
         if self._cg is None:
             self._cg = CallGraph(self.p)
         return self._cg
+
+    @property
+    def effects(self):
+        if self._effects is None:
+            from .effects import Effects
+
+            self._effects = Effects(self.p, self.cg)
+        return self._effects
 
     @property
     def typer(self):
